@@ -11,7 +11,7 @@ export const id = 'C11';
 
 const LOGGING_ATTRS = ['identUnbound', 'member', 'call', 'template', 'arrow', 'objDyn', 'arrDyn', 'cond', 'spreadIdent', 'spreadCall', 'spreadObjLit',
   'classExpr', 'classArr', 'styleExpr', 'onOther', 'onUpdate', 'onObj', 'nativeOnObj', 'strPlain', 'valueless', 'classStr', 'key', 'ref', 'jsxElBraced'];
-const TAGS = [...['div', 'importDefault', 'unboundPascal', 'member1', 'KeepAlive', 'Fragment'].map((f) => TAG_FORMS.find((t) => t.form === f || t.name === f)), ...TAG_FORMS.filter((t) => t.form === 'pattern'), TAG_FORMS.find((t) => t.form === 'importDefaultFragLike')];
+const TAGS = [...['div', 'importDefault', 'unboundPascal', 'member1', 'KeepAlive', 'Fragment'].map((f) => TAG_FORMS.find((t) => t.form === f || t.name === f)), ...TAG_FORMS.filter((t) => t.form === 'pattern'), { form: 'html', name: 'input' }, { form: 'html', name: 'br' }, { form: 'html', name: 'img' }, TAG_FORMS.find((t) => t.form === 'importDefaultFragLike')];
 const KID_SHAPES = ['none', 'identUnbound', 'call', 'memberExpr', 'cond', 'mixed1', 'mixed2', 'spread', 'spreadCall', 'nestedComp', 'element', 'text', 'arrow', 'object', 'optMember', 'optMemberDeep', 'template', 'binary', 'newExpr', 'arrayLit', 'logicalOr', 'parenCall', 'awaitLike', 'elementWithDirective', 'elementWithVModel', 'voidCall', 'voidCallThenText'];
 const KID_KINDS = ['vnode', 'string', 'slots', 'slotfn', 'array'];
 
